@@ -99,14 +99,14 @@ def run(harnesses, jobs=16, harness_timeout=900, extra_args=(), overall_timeout=
             os.unlink(out_json)
         except OSError:
             pass
-    stats = {x["harness_id"]: x.get("cbmc_stats", {}) for x in data.get("cbmc", [])}
+    stats = {x["harness_id"]: (x.get("cbmc_stats") or {}) for x in data.get("cbmc", [])}
     for r in data.get("verification_results", {}).get("results", []):
         hid = r["harness_id"]
         if hid not in results:
             continue
         res = results[hid]
         res.duration_s = r.get("duration_ms", 0) / 1000.0
-        res.stats = {k: v for k, v in stats.get(hid, {}).items()
+        res.stats = {k: v for k, v in (stats.get(hid) or {}).items()
                      if k in ("runtime_symex_s", "runtime_solver_s", "runtime_decision_procedure_s",
                               "runtime_convert_ssa_s", "vccs_generated", "vccs_remaining", "size_program_expression")}
         checks = r.get("checks", [])
